@@ -391,9 +391,22 @@ def translate(src_text):
     node = last_else
     while node.orelse and len(node.orelse) == 1 and isinstance(node.orelse[0], ast.If):
         node = node.orelse[0]
-    fin = [U(s) for s in node.orelse if not (isinstance(s, ast.Expr) and isinstance(s.value, ast.Constant))]
-    if fin != ["exit_code = ONE", "ret = ByteVec()"]:
-        raise TranslateError(f"call_unknown: non-existing account branch is {fin}")
+    fin = [s for s in node.orelse if not (isinstance(s, ast.Expr) and isinstance(s.value, ast.Constant))]
+    if len(fin) != 2 or U(fin[1]) != "ret = ByteVec()" or not (isinstance(fin[0], ast.Assign) and U(fin[0].targets[0]) == "exit_code"):
+        raise TranslateError(f"call_unknown: non-existing account branch is {[U(s) for s in fin]}")
+    ev = fin[0].value
+    # the status word of a call of an account without code: 1, or (since 65d68f4) 1 unless the depth limit is exceeded
+    if U(ev) == "ONE":
+        emit("unknown_call_ok", "(depth : Z) ", "bool", "true")
+    elif isinstance(ev, ast.IfExp) and U(ev.body) == "ONE" and U(ev.orelse) == "ZERO":
+        emit("unknown_call_ok", "(depth : Z) ", "bool", Ex({"ex.context.depth": ("depth", "Z")}, {"MAX_CALL_DEPTH"}).b(ev.test))
+    else:
+        raise TranslateError(f"call_unknown: status word of a non-existing account is {U(ev)}")
+    if [U(s) for s in tail.body[:1]] != ["ex.st.push(exit_code)"] or tail.body.index(inner) != 1:
+        raise TranslateError("call_unknown: the status word must be pushed, then the value sent iff it is non-zero")
+    tr_app = [U(n) for n in ast.walk(cu) if isinstance(n, ast.Call) and U(n.func) == "new_ex.context.trace.append"]
+    if tr_app != ["new_ex.context.trace.append(CallContext(message=message, output=CallOutput(data=ret_), depth=new_ex.context.depth + 1))"]:
+        raise TranslateError(f"call_unknown: trace entry {tr_app}")
 
     # ------------------------------------------------------------------ handle_insufficient_fund_case
     h = find_function(tree, "handle_insufficient_fund_case", cls="SEVM")
@@ -708,7 +721,7 @@ def selfcheck(info):
     cross-check is the L2 correspondence run of C09.  Here: sanity of what was emitted."""
     bad = []
     for k in ("msg_target", "msg_caller", "msg_value", "msg_static", "call_fund", "sends_value", "insufficient", "balance_ok",
-              "call_static_value_check", "callvalue_checks_balance", "retcopy_guard", "retcopy_copy_guard", "extcodecopy_empty_len",
+              "call_static_value_check", "callvalue_checks_balance", "unknown_call_ok", "retcopy_guard", "retcopy_copy_guard", "extcodecopy_empty_len",
               "call_restore_copies_storage", "create_restore_copies_storage", "branch_copies_storage", "call_backup_copies_storage"):
         if k not in info:
             bad.append(f"missing {k}")
